@@ -350,6 +350,42 @@ fn struct_pass_program(sizes: &[usize]) -> (String, Vec<String>) {
     (s, expect)
 }
 
+/// An aggregate whose size is not a multiple of 8 (3, 5, 6, 7 bytes ...) copied WHOLE into a member of
+/// a struct literal that is built on the stack with its members written out of declaration order, or
+/// of a reordering struct cast: the member packed right after it was stored earlier, so a copy that
+/// is wider than the value (seeded change C02_3: the tail of the stack memcpy rounded up to a power
+/// of two) overwrites it.
+fn odd_member_program() -> (String, Vec<String>) {
+    let mut s = String::from("core :: #mod(\"core\");\n\n");
+    let mut main = String::from("main :: () {\n");
+    let mut expect = vec![];
+    // (name, definition, literal, field to print, its value, size)
+    let tys: [(&str, &str, &str, &str, &str); 6] = [
+        ("T3", "struct { a: u8, b: u8, c: u8 }", "T3.{ a = 1, b = 2, c = 3 }", "c", "3"),
+        ("T5", "struct { a: i32, b: u8 }", "T5.{ a = 100000, b = 5 }", "b", "5"),
+        ("T6", "struct { a: i32, b: u16 }", "T6.{ a = 100000, b = 600 }", "b", "600"),
+        ("T7", "struct { a: i32, b: u16, c: u8 }", "T7.{ a = 100000, b = 600, c = 7 }", "c", "7"),
+        ("T9", "struct { a: u64, b: u8 }", "T9.{ a = 5000000000, b = 9 }", "b", "9"),
+        ("T11", "struct { a: u64, b: u16, c: u8 }", "T11.{ a = 5000000000, b = 600, c = 11 }", "c", "11"),
+    ];
+    for (n, def, lit, f, fv) in tys {
+        s.push_str(&format!("{n} :: {def};\nW{n} :: struct {{ g: u8, v: {n}, h: u8, k: u8 }};\nR{n} :: struct {{ k: u8, h: u8, v: {n}, g: u8 }};\n"));
+        // out-of-order literal: the members after `v` are written first
+        main.push_str(&format!(
+            "    {{\n        src := {lit};\n        w := W{n}.{{ k = 93, h = 92, v = src, g = 91 }};\n        core.println(w.g);\n        core.println(w.h);\n        core.println(w.k);\n        core.println(w.v.{f});\n"
+        ));
+        expect.extend(["91".to_string(), "92".into(), "93".into(), fv.to_string()]);
+        // reordering struct cast
+        main.push_str(&format!(
+            "        r := R{n}.{{ k = 83, h = 82, v = src, g = 81 }};\n        c := W{n}.(r);\n        core.println(c.g);\n        core.println(c.h);\n        core.println(c.k);\n        core.println(c.v.{f});\n    }}\n"
+        ));
+        expect.extend(["81".to_string(), "82".into(), "83".into(), fv.to_string()]);
+    }
+    main.push_str("}\n");
+    s.push_str(&main);
+    (s, expect)
+}
+
 /// `s.f op= y` where `y` is WIDER than the field: either the program is rejected (the result does
 /// not fit the destination) or the store stays inside the field — the neighbours keep their values
 /// and the field holds the wrapped result. One program per (field type, value type, operator).
@@ -476,6 +512,17 @@ pub fn run(tier: &str, seed: u64, widen: bool) -> Report {
         rep.hit("struct-pass-return");
         if !o[0].built || o[0].run_status != Some(0) || got != expect {
             rep.oracle_fail("struct-arg-return", json!({"sizes": chunk, "source": src}), json!({"built": o[0].built, "status": o[0].run_summary(), "lines": got}), json!(expect), "by-value struct argument/return changed a value it should not or lost a byte");
+        }
+    }
+    // 2a. odd-sized aggregates copied into members of out-of-order literals / reordering casts
+    {
+        let (src, expect) = odd_member_program();
+        let o = e2e::run_all(&[e2e::Program::single(&src)], e2e::Limits::default());
+        let got: Vec<String> = o[0].stdout().lines().map(|x| x.trim().to_string()).collect();
+        rep.case(Some("odd-member-out-of-order".into()));
+        rep.hit("odd-sized-member:out-of-order-literal-and-reordering-cast");
+        if !o[0].built || o[0].run_status != Some(0) || got != expect {
+            rep.oracle_fail("odd-sized-member-copy-clobbers-neighbour", json!({"source": src}), json!({"built": o[0].built, "status": o[0].run_summary(), "lines": got}), json!(expect), "copying an aggregate whose size is not a multiple of 8 into a struct member changed the member stored next to it");
         }
     }
     // 2b. compound assignment of a wider value into a narrow field
